@@ -113,6 +113,10 @@ func (conv *converter) ConvertFile(f *ast.File) *ir.File {
 			continue
 		}
 
+		if funcDecl.Body == nil {
+			panic(conv.errorf(funcDecl, "%s function has no body", funcDecl.Name))
+		}
+
 		if funcDecl.Name.String() == "init" {
 			conv.convertInitFunc(result, funcDecl)
 			continue
